@@ -1,0 +1,177 @@
+//! Verification hooks for the bgp-tcp-in unit's metrics (area BgpMetrics;
+//! feature `verif-hooks`, add-only). Mounted as a child module of
+//! `bgp_tcp_in::unit` because `BgpTcpInRunner` is private there.
+//!
+//! `start` is `verif_hooks_bgpin::start` (the real `BgpTcpInRunner::run`
+//! with the real `ConfigAcceptor`) with one difference: the listener
+//! factory is a wrapper around the real `StandardTcpListenerFactory` that
+//! lets a harness make the next `bind` calls fail and make a pending (or
+//! the next) `accept` return an error, which no harness can provoke on a
+//! loopback socket. Everything else the wrapper does is the real listener.
+//! The unit's current configuration and a `GateAgent::reconfigure` through
+//! a caller-chosen agent are exposed as plain accessors.
+
+use std::net::SocketAddr;
+use std::sync::atomic::{AtomicUsize, Ordering::SeqCst};
+use std::sync::Arc;
+
+use arc_swap::ArcSwap;
+
+use super::verif_hooks_bgpin::BgpInUnit;
+use super::{
+    BgpTcpIn, BgpTcpInMetrics, BgpTcpInRunner, BgpTcpInStatusReporter,
+    Gate, Unit,
+};
+use crate::common::net::{
+    StandardTcpListener, StandardTcpListenerFactory, StandardTcpStream,
+    TcpListener, TcpListenerFactory,
+};
+use crate::comms::{GateAgent, Link};
+use crate::ingress;
+
+/// What the harness can make the listener do, and what it did.
+#[derive(Default)]
+pub struct Faults {
+    /// the next that many `bind` calls fail with `AddrInUse`
+    pub bind_failures: AtomicUsize,
+    /// number of `bind` calls made so far (failed ones included)
+    pub bind_attempts: AtomicUsize,
+    /// `notify_one` makes the pending (or else the next) `accept` fail
+    pub accept_error: tokio::sync::Notify,
+    /// number of `accept` errors handed to the unit so far
+    pub accept_errors: AtomicUsize,
+}
+
+pub struct FaultyFactory(pub Arc<Faults>);
+
+pub struct FaultyListener {
+    inner: StandardTcpListener,
+    faults: Arc<Faults>,
+}
+
+#[async_trait::async_trait]
+impl TcpListenerFactory<FaultyListener> for FaultyFactory {
+    async fn bind(&self, addr: String) -> std::io::Result<FaultyListener> {
+        self.0.bind_attempts.fetch_add(1, SeqCst);
+        let pending = self
+            .0
+            .bind_failures
+            .fetch_update(SeqCst, SeqCst, |n| n.checked_sub(1))
+            .is_ok();
+        if pending {
+            return Err(std::io::ErrorKind::AddrInUse.into());
+        }
+        let inner = StandardTcpListenerFactory.bind(addr).await?;
+        Ok(FaultyListener {
+            inner,
+            faults: self.0.clone(),
+        })
+    }
+}
+
+#[async_trait::async_trait]
+impl TcpListener<StandardTcpStream> for FaultyListener {
+    async fn accept(
+        &self,
+    ) -> std::io::Result<(StandardTcpStream, SocketAddr)> {
+        tokio::select! {
+            biased;
+            _ = self.faults.accept_error.notified() => {
+                self.faults.accept_errors.fetch_add(1, SeqCst);
+                Err(std::io::ErrorKind::ConnectionAborted.into())
+            }
+            res = self.inner.accept() => res,
+        }
+    }
+}
+
+/// The running unit plus what `BgpInUnit` does not carry.
+pub struct MeteredUnit {
+    pub unit: BgpInUnit,
+    /// the configuration the accept loop currently uses (`runner.bgp`)
+    pub bgp: Arc<ArcSwap<BgpTcpIn>>,
+    pub faults: Arc<Faults>,
+}
+
+/// Must be called inside a tokio runtime. Same wiring as
+/// `verif_hooks_bgpin::start`.
+pub fn start(
+    unit: BgpTcpIn,
+    ingresses: Arc<ingress::Register>,
+    unit_name: &str,
+) -> (MeteredUnit, Link) {
+    let faults = Arc::new(Faults::default());
+    let (gate, mut agent) = Gate::new(0);
+    let link = agent.create_link();
+    let metrics = Arc::new(BgpTcpInMetrics::new(&gate));
+    let status_reporter = Arc::new(BgpTcpInStatusReporter::new(
+        unit_name,
+        metrics.clone(),
+    ));
+    let unit_metrics = metrics.clone();
+    let runner = BgpTcpInRunner::new(
+        unit,
+        gate,
+        metrics,
+        status_reporter,
+        None,
+        ingresses.clone(),
+    );
+    let live_sessions = runner.live_sessions.clone();
+    let bgp = runner.bgp.clone();
+    let factory = Arc::new(FaultyFactory(faults.clone()));
+    let task = crate::tokio::spawn("verif-bgp-in", async move {
+        runner
+            .run::<_, _, StandardTcpStream, BgpTcpInRunner>(
+                Vec::new(),
+                factory,
+            )
+            .await
+    });
+    (
+        MeteredUnit {
+            unit: BgpInUnit {
+                agent,
+                live_sessions,
+                ingresses,
+                task,
+                metrics: unit_metrics,
+            },
+            bgp,
+            faults,
+        },
+        link,
+    )
+}
+
+impl MeteredUnit {
+    /// What `BgpTcpIn::run` registers with the manager
+    /// (`component.register_metrics(metrics.clone())`).
+    pub fn metrics_source(&self) -> Arc<dyn crate::metrics::Source> {
+        self.unit.metrics.clone()
+    }
+
+    /// `Debug` text of the configuration the accept loop uses right now.
+    pub fn current_config_debug(&self) -> String {
+        format!("{:?}", **self.bgp.load())
+    }
+}
+
+/// `Debug` text of a configuration (to compare with
+/// `current_config_debug`).
+pub fn config_debug(unit: &BgpTcpIn) -> String {
+    format!("{:?}", unit)
+}
+
+/// `GateAgent::reconfigure` through `agent` (the newest one) with a new
+/// `BgpTcpIn` and a new gate; returns the new gate's agent.
+pub async fn reconfigure_via(
+    agent: &GateAgent,
+    new_unit: BgpTcpIn,
+) -> Result<GateAgent, String> {
+    let (new_gate, new_agent) = Gate::new(0);
+    agent
+        .reconfigure(Unit::BgpTcpIn(new_unit), new_gate)
+        .await?;
+    Ok(new_agent)
+}
